@@ -87,7 +87,9 @@ def check_driver_loop(cx: Cx, fn, model_from: List[str], rule='R-GUARD'):
                 conds = [x for x in evs[j:i] if x.kind == 'cond']
                 if k >= 0 and evs[k].kind == 'cond' and evs[k].data.get('loop_test'):
                     conds.insert(0, evs[k])
-                F = guard_with_running(cx, f_and(*[c.data['formula'] for c in conds]))
+                from sa.terms import strip_epochs
+                F = strip_epochs(guard_with_running(cx, f_and(*[c.data['formula'] for c in conds])))
+                model = strip_epochs(model)
                 ts = Attr(Attr(model, 'systems'), 'timestep')
                 alt = Attr(model, 'timestep')
                 want = f_and(RUNNING, mk_cmp(ts, '<', Sym('max_timesteps')))
